@@ -175,7 +175,7 @@ func RunCase(t *testing.T, c *Case, wantTrace bool) *RunOut {
 		}
 		out.DiskTrace = r.disk.Trace[len(r.disk.Trace)-n:]
 	}
-	if c.Scenario == "conc" && res.Panic == nil && res.Hang == nil {
+	if c.Scenario == "conc" && res.Panic == nil && res.Hang == nil && !res.StepLimit && res.Aborted == "" {
 		r.checkLin()
 	}
 	if res.Panic != nil {
